@@ -60,6 +60,18 @@ PLANS["C05"] = Plan(
 
 
 META = {
+    "C01": {"text": "all six decoder functions proved against contracts for every instance/permutation/dtype: inside-bin, "
+                    "pairwise non-overlap per bin, id/size/rotation, gap-free bins (ghost witnesses), bin count, every store "
+                    "within the storage type; bounded run of the public decode() as replay vehicle",
+            "note": "assumed: E1 int_range_to_dtype, E2 signed-permutation space; class wrappers decode() are one-line calls "
+                    "checked only by the bounded monitor",
+            "technique": "contract-based deductive verification (loop invariants, modular callee contracts, ghost witnesses; z3/cvc5)"},
+    "C14": {"text": "rule obligations R1-R9 of the documented bottom-left procedure proved on the real decoders: start position, "
+                    "orientation, strongest post-conditions of both moves (no tunnelling, tight), down-precedence iteration "
+                    "contract, stop condition, next-/first-fit refinement assertions, new-bin placement, write-before-read of all "
+                    "scratch state; reference decoder written from the documentation as bounded cross-check",
+            "note": "assumed: E1, E2; determinism meta-argument (unique trajectory of a deterministic step function)",
+            "technique": "contract-based deductive verification (iteration contracts, branch-iff refinement assertions, ghost written-sets)"},
     "C05": {"text": "tour_length proved equal to the cyclic edge sum, overflow-free, for every matrix/permutation/dtype "
                     "(unbounded, z3); a proof is the right level because the property quantifies over all instances",
             "note": "trusted: VC generator, z3/cvc5; numba computes integer arithmetic in 64 bits (NBEP-1)",
